@@ -120,6 +120,25 @@ def echo_bbans(row: dict, rng: random.Random) -> list[str]:
     return list(dict.fromkeys(out))
 
 
+WORDS = ["IBAN", "BBAN", "BIC", "SWIFT", "NONE", "NULL", "TRUE", "NAN", "INF", "E", "X"]
+
+
+def word_bbans(row: dict, rng: random.Random, words: list[str] | None = None) -> list[str]:
+    """Structure-conforming BBANs whose letters spell a word that means something to software (a label
+    that may be stripped, a literal that may be parsed): at the first place the structure allows."""
+    cls = row_classes(row)
+    if cls is None:
+        return []
+    out = []
+    for w in (words or WORDS):
+        spots = [p for p in range(len(cls) - len(w) + 1) if all(cls[p + i] in (97, 99) for i in range(len(w)))]
+        if spots:
+            base = bban_for(row, rng)
+            p = spots[0]
+            out.append(base[:p] + w + base[p + len(w):])
+    return out
+
+
 def cc_of(row: dict) -> str:
     return "".join(chr(c) for c in row["key"])
 
